@@ -558,6 +558,19 @@ package core
 //@   flag bounds=panic
 //@   modifies @NEXT_INVOKE
 //@   loop 1 invariant 0 <= i && len(clientContext.ReturnType) == n && clientContext != nil && forall(k, 0, i, ival(clientContext.ReturnType[k]) == type_out(ival(t), k))
+//@   atcall Replace [every_dot_of_the_nested_name_becomes_an_underscore] arg3 < 0
 //@   atcall InvokeContext [declared_result_types_are_this_methods] clientContext != nil &&
 //@       len(clientContext.ReturnType) == type_numout(ival(t)) - ite(type_numout(ival(t)) > 0 && same(clientContext.ReturnType[type_numout(ival(t)) - 1], errorType), 1, 0) &&
 //@       forall(k, 0, len(clientContext.ReturnType), ival(clientContext.ReturnType[k]) == type_out(ival(t), k))
+
+// the argument list of a call is itself an item of the wire format: on the service side it takes
+// one reference number before the arguments are read (the client numbered it when it wrote it)
+//@ func (serviceCodec).decodeArguments
+//@   prop C08 C04
+//@   havoc
+//@   flag typeassert=panic
+//@   flag bounds=panic
+//@   requires decoder != nil && 0 <= decoder.head && decoder.head <= decoder.tail && decoder.tail <= len(decoder.buf) && decoder.reader == nil
+//@   atmake [allocation_bounded_by_the_request] makecap <= decoder.tail - decoder.head
+//@   atcall AddReference [the_argument_list_itself_takes_a_reference_number_before_its_elements] decoder.simple || len(decoder.refer.ref) == 0
+//@   ensures [the_argument_list_is_numbered] !decoder.simple && len(args) > 0 ==> len(decoder.refer.ref) >= 1
